@@ -10,6 +10,8 @@ conclusions fail without it. Helper lemmas: Proofs/Render*.lean.
 -/
 import NGF.Proofs.RenderWF
 import NGF.Generated.RenderFacts
+import NGF.Proofs.RenderTls
+import NGF.Props.C16Pipeline
 
 namespace NGF.Props.C03Render
 open NGF.Pipeline NGF.Render NGF.Nginx
@@ -507,5 +509,89 @@ theorem render_listen_witnesses :
     NGF.WF.listenWhy ["unix:/var/run/nginx/https443.sock".toList, "ssl".toList, "default_server".toList, "proxy_protocol".toList] = none ∧
     NGF.WF.listenWhy ["[::]:443".toList, "ssl".toList] = none := by
   decide +kernel
+
+/-! ## 8. SSL servers (Model/RenderTls: `renderT (genTR s order orderS)`, on top of C16's `PipelineTls.genT`) -/
+
+section ssl
+open NGF.PipelineTls NGF.RenderTls
+
+/-- projection: the enriched SSL configuration is C16's `genT s` with more information (for all port orders) -/
+theorem genTR_projects_to_genT (s : ScenarioT) (order orderS : List Nat) : (genTR s order orderS).forget = genT s :=
+  forget_genTR s order orderS
+
+/-- every certificate file that the rendered configuration references is defined by the same file set: each argument of
+an `ssl_certificate` / `ssl_certificate_key` directive of `renderT (genTR s …)` is `secrets/<id>.pem` of a key pair that
+`genT s` emits (C16's `ssl_server_cert_any_ns` gives the key pair) — for EVERY TLS scenario, no hypothesis -/
+theorem ssl_cert_files_defined (s : ScenarioT) (order orderS : List Nat) :
+    ∀ r ∈ certRefs (renderT (genTR s order orderS)), r ∈ certFiles (genTR s order orderS) := by
+  intro r hr
+  obtain ⟨sv, hsv, id, hk, rfl⟩ := certRefs_renderT _ hr
+  have hf := forget_genTR s order orderS
+  have hmem : (sv.forget.1, some id) ∈ (genT s).ssl := by
+    rw [← hf]
+    exact List.mem_map.mpr ⟨sv, hsv, by simp [SslR.forget, hk]⟩
+  obtain ⟨_, _, _, _, _, _, _, _, c, _, _, hid, _, k, hkm, hkid, _⟩ := NGF.PipelineTls.ssl_server_cert_any_ns s _ _ hmem
+  have hkp : (genTR s order orderS).keyPairs = (genT s).keyPairs := by rw [← hf]; rfl
+  unfold certFiles
+  rw [hkp]
+  refine List.mem_map.mpr ⟨k, hkm, ?_⟩
+  rw [hkid]
+  simp only [Option.some.injEq] at hid
+  rw [hid]
+
+/-
+NOT PROVED in this round (statements kept; both are executed on every scenario of the TLS render tie, evidence
+`render_tls_tie`):
+
+  theorem ssl_listen_server_name_distinct (s : ScenarioT) (order orderS : List Nat) (hf : inFragmentT s = true)
+    (hd : noDupSsl (genTR s order orderS) = true) :
+    ((sslDirs (genTR s order orderS)).flatMap srvPairs).Nodup
+  -- missing: `srvPairs (renderSsl sv) = pairsOf (sv.port, sv.name)` (the directive view of `renderSsl`, as
+  -- `listens_of_renderServer` for `renderServer`), names of SSL servers are non-empty (from `hostsOf_name_ne_nil` on
+  -- `httpsPart s` and `serverName`), then `pairs_nodup`'s argument verbatim. `noDupSsl` is the explicit hypothesis that
+  -- excludes the registered finding C03:duplicate-ssl-server-from-listener-404; witness below (`sDupSsl`).
+
+  theorem renderT_wellformed (s : ScenarioT) (order orderS : List Nat) (hf : inFragmentT s = true)
+    (hs : namesSafe (allPart s) = true) (hp : portsOKT s = true) (hd : noDupSsl (genTR s order orderS) = true) :
+    wfDirs (renderT (genTR s order orderS)) (matchKeysOfT (genTR s order orderS)) = []
+  -- missing: the `GoodConf` argument of Proofs/RenderWF for the SSL half: `renderRuleK (sslKey sid)` in place of
+  -- `renderRule sid` (keys `SSL_<i>_<j>` vs `<i>_<j>` are disjoint: 'S' is not a digit), `listenWhy` of `<p> ssl`
+  -- / `[::]:<p> ssl [default_server]`, and the BackendGroups of both halves (`dedupKey (cH.groups ++ cS.groups)`).
+-/
+
+/-- `_partial` of `renderT_wellformed`: the plain-HTTP half of `renderT` is `render (genR (httpPart s) order)` — the servers C16
+proves unaffected by TLS objects — and the structural judge finds nothing in it -/
+theorem renderT_wellformed_partial (s : ScenarioT) (order orderS : List Nat) (hf : inFragment (httpPart s) = true)
+    (hs : namesSafe (httpPart s) = true) (hp : portsOK (httpPart s) = true) :
+    (genTR s order orderS).http = genR (httpPart s) order ∧
+    wfDirs (render (genTR s order orderS).http) (matchKeysOf (genTR s order orderS).http) = [] := by
+  have e : (genTR s order orderS).http = genR (httpPart s) order := by
+    unfold genTR; cases winnerT s <;> rfl
+  exact ⟨e, e ▸ render_wellformed_fragment (httpPart s) order hf hs hp⟩
+
+def secretOK : Tls.SecretObj := ⟨S "default", S "tls", true, true, S "CERT", S "KEY"⟩
+
+/-- one HTTPS listener `cafe.example.com` with a resolvable Secret, one route -/
+def sSsl : ScenarioT :=
+  ⟨S "nginx", S "ctl", [⟨S "nginx", S "ctl"⟩],
+    [⟨S "default", S "gw", S "nginx", 1, [⟨⟨S "https", 443, S "cafe.example.com", true⟩, true, some (S "default", S "tls")⟩,
+                                          ⟨⟨S "http", 80, [], true⟩, false, none⟩]⟩],
+    sOK.routes, [secretOK], []⟩
+
+/-- the registered finding C03:duplicate-ssl-server-from-listener-404: an HTTPS listener WITHOUT hostname and a route
+without hostnames: the route's server and the listener's 404 server are both `listen 443 ssl; server_name ~^;` -/
+def sDupSsl : ScenarioT :=
+  { sSsl with
+    gateways := [⟨S "default", S "gw", S "nginx", 1, [⟨⟨S "https", 443, [], true⟩, true, some (S "default", S "tls")⟩]⟩],
+    routes := sOK.routes.map fun r => { r with hostnames := [] } }
+
+#guard inFragmentT sSsl && namesSafe (allPart sSsl) && portsOKT sSsl && noDupSsl (genTR sSsl [] [])
+#guard (certRefs (renderT (genTR sSsl [80] [443]))).length == 2 && (certFiles (genTR sSsl [80] [443])).length == 1
+#guard (wfDirs (renderT (genTR sSsl [80] [443])) (matchKeysOfT (genTR sSsl [80] [443]))).isEmpty
+#guard inFragmentT sDupSsl && !noDupSsl (genTR sDupSsl [] [])
+#guard ((wfDirs (renderT (genTR sDupSsl [] [])) (matchKeysOfT (genTR sDupSsl [] []))).map (·.clause)).eraseDups ==
+  ["duplicate-listen-server-name"]
+
+end ssl
 
 end NGF.Props.C03Render
